@@ -1,8 +1,7 @@
 /-
 C02 — facts about the specification's algorithm used by the corollaries of the refinement:
 every logged resolver call carries CoerceArgumentValues of its field definition, a propagating
-null always has a recorded error, and every error is located at or below the response position
-of the computation that raised it.
+null always has a recorded error.
 -/
 import Gql.Exec.SpecExec
 
@@ -18,16 +17,14 @@ def CallOk (scx : Spec.Ctx) (c : Call) : Prop :=
 structure Good (scx : Spec.Ctx) (pos : List PSeg) {α : Type} (r : Spec.R α) : Prop where
   calls : ∀ c ∈ r.log, CallOk scx c
   nonempty : r.out = none → r.errs ≠ []
-  located : ∀ e ∈ r.errs, ∃ p, e.path = some p ∧ pos <+: p
 
 theorem Good.pure {scx : Spec.Ctx} {pos : List PSeg} {α : Type} (a : α) :
     Good scx pos (Spec.R.pure a) :=
-  ⟨by simp [Spec.R.pure], by simp [Spec.R.pure], by simp [Spec.R.pure]⟩
+  ⟨by simp [Spec.R.pure], by simp [Spec.R.pure]⟩
 
 theorem Good.fail {scx : Spec.Ctx} {pos : List PSeg} {α : Type} (k : ErrKind) :
     Good scx pos (Spec.R.fail pos k : Spec.R α) :=
-  ⟨by simp [Spec.R.fail], by simp [Spec.R.fail],
-   by intro e he; simp only [Spec.R.fail, List.mem_singleton] at he; subst he; exact ⟨pos, rfl, List.prefix_refl _⟩⟩
+  ⟨by simp [Spec.R.fail], by simp [Spec.R.fail]⟩
 
 theorem Good.absorb {scx : Spec.Ctx} {pos : List PSeg} {r : Spec.R Json} (t : TypeRef)
     (h : Good scx pos r) : Good scx pos (Spec.absorb t r) := by
@@ -38,17 +35,15 @@ theorem Good.absorb {scx : Spec.Ctx} {pos : List PSeg} {r : Spec.R Json} (t : Ty
     simp only
     split
     · exact h
-    · exact ⟨h.calls, by simp, h.located⟩
+    · exact ⟨h.calls, by simp⟩
 
 theorem Good.weaken {scx : Spec.Ctx} {pos : List PSeg} {seg : PSeg} {α : Type} {r : Spec.R α}
     (h : Good scx (pos ++ [seg]) r) : Good scx pos r :=
-  ⟨h.calls, h.nonempty, fun e he => by
-    obtain ⟨p, hp, hpre⟩ := h.located e he
-    exact ⟨p, hp, List.IsPrefix.trans (List.prefix_append pos [seg]) hpre⟩⟩
+  ⟨h.calls, h.nonempty⟩
 
 theorem Good.mapOut {scx : Spec.Ctx} {pos : List PSeg} {α β : Type} {r : Spec.R α} (f : α → β)
     (h : Good scx pos r) : Good scx pos ({ out := r.out.map f, errs := r.errs, log := r.log } : Spec.R β) :=
-  ⟨h.calls, by simpa using h.nonempty, h.located⟩
+  ⟨h.calls, by simpa using h.nonempty⟩
 
 def ChildGood (scx : Spec.Ctx) (child : Spec.Child) : Prop :=
   ∀ name args t fields pos, Good scx pos (child name args t fields pos)
@@ -88,7 +83,7 @@ theorem executeField_good (scx : Spec.Ctx) (objectType : Name) (child : Spec.Chi
         | some args =>
           simp only
           have hg := hch field.name args fd.type (field :: rest) pos
-          refine ⟨?_, hg.nonempty, hg.located⟩
+          refine ⟨?_, hg.nonempty⟩
           intro c hc'
           simp only [List.mem_cons] at hc'
           rcases hc' with rfl | hc'
@@ -105,11 +100,11 @@ theorem executeGroups_good (scx : Spec.Ctx) (objectType : Name) (child : Spec.Ch
     cases hout : (Spec.executeField scx objectType child (pos ++ [.key k]) fields).out with
     | none =>
       simp only [hout]
-      exact ⟨h1.calls, fun _ => h1.nonempty hout, h1.located⟩
+      exact ⟨h1.calls, fun _ => h1.nonempty hout⟩
     | some v =>
       simp only [hout]
       have h2 := executeGroups_good scx objectType child hch pos rest
-      refine ⟨?_, ?_, ?_⟩
+      refine ⟨?_, ?_⟩
       · intro c hc
         rcases List.mem_append.1 hc with hc | hc
         · exact h1.calls c hc
@@ -119,10 +114,6 @@ theorem executeGroups_good (scx : Spec.Ctx) (objectType : Name) (child : Spec.Ch
           simpa using hnone
         have := h2.nonempty this
         simp [this]
-      · intro e he
-        rcases List.mem_append.1 he with he | he
-        · exact h1.located e he
-        · exact h2.located e he
 
 theorem executeSelectionSet_good (scx : Spec.Ctx) (objectType : Name) (sels : List Selection)
     (pos : List PSeg) (child : Spec.Child) (hch : ChildGood scx child) :
@@ -161,7 +152,10 @@ theorem nullChild_good (scx : Spec.Ctx) : ChildGood scx Spec.nullChild :=
 mutual
 theorem completeValue_good (scx : Spec.Ctx) : (d : RVal) → ∀ (t : TypeRef) (fields : List FieldNode)
     (pos : List PSeg), Good scx pos (Spec.completeValue scx t fields pos d)
-  | .raise tag, t, fields, pos => by unfold Spec.completeValue; exact Good.fail _
+  | .raise tag none, t, fields, pos => by unfold Spec.completeValue; exact Good.fail _
+  | .raise tag (some p), t, fields, pos => by
+    unfold Spec.completeValue
+    exact ⟨by simp, by simp⟩
   | .null, t, fields, pos => by unfold Spec.completeValue; exact completeNull_good scx pos t
   | .leaf l, t, fields, pos => by
     unfold Spec.completeValue
@@ -187,11 +181,11 @@ theorem completeItems_good (scx : Spec.Ctx) : (items : List RVal) → ∀ (t : T
     cases hout : (Spec.absorb t (Spec.completeValue scx t fields (pos ++ [.idx i]) x)).out with
     | none =>
       simp only [hout]
-      exact ⟨h1.calls, fun _ => h1.nonempty hout, h1.located⟩
+      exact ⟨h1.calls, fun _ => h1.nonempty hout⟩
     | some j =>
       simp only [hout]
       have h2 := completeItems_good scx xs t fields pos (i + 1)
-      refine ⟨?_, ?_, ?_⟩
+      refine ⟨?_, ?_⟩
       · intro c hc
         rcases List.mem_append.1 hc with hc | hc
         · exact h1.calls c hc
@@ -200,10 +194,6 @@ theorem completeItems_good (scx : Spec.Ctx) : (items : List RVal) → ∀ (t : T
         have : (Spec.completeItems scx t fields pos (i + 1) xs).out = none := by simpa using hnone
         have := h2.nonempty this
         simp [this]
-      · intro e he
-        rcases List.mem_append.1 he with he | he
-        · exact h1.located e he
-        · exact h2.located e he
 end
 
 theorem childOf_good (scx : Spec.Ctx) (v : RVal) : ChildGood scx (Spec.childOf scx v) :=
